@@ -28,6 +28,11 @@ def templates(rng):
         # a multi-line span and tabs / non-ASCII text on the line
         "module M\nstruct K { x: float32 }\nstruct S {\n\t/* ü */\ta: Dictionary<\n\t\tK,\n\t\tint32>,\n}\n",
         "module M\n\t\tstruct /* 日本語 */ S { a: Sequence<Nope>\t}\n",
+        # spans that really run over several lines, with non-ASCII text, tabs and comments on every one of them
+        "module M\nstruct S {\n    tag(1) // é ü 日本\n    a: /* ü */\n\t\tint32, b: bool\n}\n",
+        "module M\ninterface I {\n    op(tag(2) /* 日本語 ünï */ p:\n        string, // ü😀\n       q: stream /* é */\n int32, r: bool)\n}\n",
+        "module M\n/// @returns: déjà vu ✓ %s\n///   continued 日本\n/// @param nosuch: ü\n///\tmore\nstruct S {}\n" % p.replace("\n", " ").replace("\\", "/"),
+        "module M\r\nstruct S {\r\n    tag(1) // é ü\r\n    a:\r\n    int32,\r\n}\r\n",
         # doc comment lints (span, scope, several at once)
         "module M\n/// {@link Nope} and {@link Nope2}\n/// @param x: y\n/// @foo\nstruct S {}\n",
         # cycle (notes), syntax error, empty file, CRLF
@@ -80,7 +85,7 @@ def run(ck):
     lines = ["emit %s %s %s" % (fmt, opts, " ".join("%s:%s" % (hx(nm), hx(t)) for nm, t in files)) for fmt, opts, files in cases]
     o = core.run_impl("emit", lines, chunk=100, timeout=120, workers=8)
     mlines, meta = [], []
-    ck.stream("emitter", description="DiagnosticEmitter into a memory writer (colours disabled) on programs producing 0..many diagnostics of every shape (with/without span and notes, multi-line spans, tabs, CRLF, quotes, backslashes, control and non-ASCII characters in messages and file names, DuplicateFile) x {json, human} x -A lists; "
+    ck.stream("emitter", description="DiagnosticEmitter into a memory writer (colours disabled) on programs producing 0..many diagnostics of every shape (with/without span and notes, spans over several lines each with non-ASCII text, tabs and comments, CRLF, quotes, backslashes, control and non-ASCII characters in messages and file names, DuplicateFile) x {json, human} x -A lists; "
               "compared byte-for-byte with the model; JSON lines parsed with Python's json")
     for (fmt, opts, files), line, oo in zip(cases, lines, o):
         ck.count("emitter", line, kind=fmt)
